@@ -98,6 +98,14 @@ class Check:
         for k, o in listed:
             print(f"KNOWN-FINDING: property={self.prop_id} {k} :: {known_open[k]['what']}")
         vdir = os.path.join(EVIDENCE_DIR, "violations")
+        # replay files of earlier runs of this property describe another tree: remove them
+        if os.path.isdir(vdir):
+            for fn in os.listdir(vdir):
+                if fn.startswith(self.prop_id + "-") and fn.endswith(".json"):
+                    try:
+                        os.remove(os.path.join(vdir, fn))
+                    except OSError:
+                        pass
         replay_paths = []
         if new:
             os.makedirs(vdir, exist_ok=True)
